@@ -11,7 +11,7 @@ import (
 )
 
 func init() {
-	register("C08", "branches, loops, break/continue/return do what their syntax says", checkC08)
+	register("C08", "branches, loops, break/continue/return do what their syntax says", func(p *Program, r *Report) { checkC08(p, r); c08Extra(p, r) })
 }
 
 // scriptLoops returns the natural loops of fn that execute a statement operand which is not a list element (a loop body).
